@@ -18,9 +18,9 @@ func Verif_C03_delivery() {
 		if verifChoose("frame", 2) == 0 {
 			b := verifBuf("update", 0, 4077)
 			bodies = append(bodies, b)
-			conn.addFrame(updateMessageType, b)
+			conn.addFrame(verifMsgUpdate, b)
 		} else {
-			conn.addFrame(keepAliveMessageType, nil)
+			conn.addFrame(verifMsgKeepalive, nil)
 		}
 	}
 	conn.shortReads = K
@@ -79,12 +79,12 @@ func Verif_C03_delivery_schedules() {
 	}
 	conn := newSymConn("c", nil, mode)
 	bodies := [][]byte{{0, 0, 0, 0}, {0, 0, 0, 1, 9}, {0, 0, 0, 0}}
-	conn.addFrame(updateMessageType, bodies[0])
-	conn.addFrame(keepAliveMessageType, nil)
-	conn.addFrame(updateMessageType, bodies[1])
-	conn.addFrame(updateMessageType, bodies[2])
+	conn.addFrame(verifMsgUpdate, bodies[0])
+	conn.addFrame(verifMsgKeepalive, nil)
+	conn.addFrame(verifMsgUpdate, bodies[1])
+	conn.addFrame(verifMsgUpdate, bodies[2])
 	if end == 2 {
-		bad := mkFrame(keepAliveMessageType, nil)
+		bad := mkFrame(verifMsgKeepalive, nil)
 		bad[0] = 0
 		conn.addBytes(bad)
 	}
@@ -115,7 +115,7 @@ func Verif_C03_second_session_on_reused_fsm() {
 	e.pl.handlerNotif = &Notification{Code: verifU8("ncode"), Subcode: verifU8("nsub"), Data: nd}
 	e.p.start()
 	c1 := e.bring(out, stEstablished)
-	c1.send(updateMessageType, b1)
+	c1.send(verifMsgUpdate, b1)
 	verifQuiesce()
 	c1.remoteClose(1)
 	verifQuiesce()
@@ -131,8 +131,8 @@ func Verif_C03_second_session_on_reused_fsm() {
 		return
 	}
 	c2.writes = nil
-	c2.send(updateMessageType, b2)
-	c2.send(updateMessageType, b3)
+	c2.send(verifMsgUpdate, b2)
+	c2.send(verifMsgUpdate, b3)
 	verifQuiesce()
 	verifAssert("second-session-update-delivered-once-then-stop", len(e.pl.updates) == 2)
 	if len(e.pl.updates) == 2 {
